@@ -28,7 +28,13 @@ REQS = [
     # odd grid sizes: the padded size minus the (even) mode count is odd, the spectrum is re-inserted asymmetrically
     dict(nx=9, ny=7, nz=6, fp=False, an=False, prec="double", seed=7),
     dict(nx=7, ny=11, nz=5, fp=True, an=False, prec="single", seed=8),
+    # production-size padded grids that are not powers of two (36 x 36, 143 x 143, 77 x 62 after the 25 m halo): the sizes at which a
+    # threaded FFT library may choose another plan than the one-thread library
+    dict(nx=28, ny=26, nz=6, fp=False, an=False, prec="double", seed=9),
+    dict(nx=109, ny=101, nz=6, fp=False, an=False, prec="double", seed=10),
+    dict(nx=59, ny=44, nz=6, fp=True, an=False, prec="double", seed=11),
 ]
+N_SMALL = 8
 
 
 N_VARIANTS = 12     # variant 10 = the source of variant 5 delivered by re-filling the BASE request's array object in place;
@@ -222,7 +228,7 @@ def gen_history(rng, length):
                 if rng.random() < 0.25:
                     op[2] = str(rng.choice(["single", "double"]))
             else:
-                op = ["S", int(rng.integers(len(REQS))), None, 0]
+                op = ["S", int(rng.integers(N_SMALL)) if rng.random() < 0.85 else int(rng.integers(N_SMALL, len(REQS))), None, 0]
                 if rng.random() < 0.5:
                     # the same request shape at the other (or the same) storage precision: shared per-grid state must not
                     # carry anything precision-dependent from one solve to the next
@@ -239,7 +245,7 @@ def gen_history(rng, length):
         else:
             hist.append(["W"])
     # close with repeats so that every history compares at least one repeated solve
-    k = int(rng.integers(len(REQS)))
+    k = int(rng.integers(N_SMALL))
     hist += [["S", k], ["S", k]]
     return hist
 
@@ -363,9 +369,15 @@ def run(rng, tier, deep):
     for i in (0, 4) if tier == "quick" else (0, 2, 4, 6):
         hists.append([["S", i, "single", 11], ["S", i, "double", 0], ["S", i, "double", 11], ["S", i, "single", 0], ["S", i, "single", 11]])
         hists.append([["S", i, "double", 11], ["S", i, "single", 11], ["S", i, "double", 11]])
-    for i in (0, 1, 5) if tier == "quick" else range(len(REQS)):
+    for i in (0, 1, 5) if tier == "quick" else range(N_SMALL):
         hists.append([["S", i, "single"], ["S", i, "double"], ["S", i, "single"], ["S", i, "double"]])
         hists.append([["S", i, "double"], ["S", i, "single"], ["S", i, "double"]])
+    # thread setting x production-size grid: a one-thread solve before and after a T-thread solve of the same request (whatever the
+    # T-thread solve leaves in the FFT layer must not reach the next one-thread solve)
+    big = list(range(N_SMALL, len(REQS)))
+    for i in big:
+        for t in ([int(rng.integers(2, 9))] if (tier == "quick" and not deep) else range(2, 9)):
+            hists.append([["S", i], ["T", t], ["S", i], ["T", 1], ["S", i], ["S", i]])
     if deep:
         # re-entrancy: pairs of solves of one shape in flight at once (only in the failing-input search: thread timing is not
         # reproducible, so this never runs on a tree whose obligations all check)
@@ -409,7 +421,7 @@ def run(rng, tier, deep):
         run_oracle(st, o_history, dict(hist=[["S", i, None, 0], ["E", 1 + k % 2], ["S", i, None, 0], ["S", i, None, 0]]))
     for w in (["corrupt"] if tier == "quick" else ["corrupt", None]):
         run_oracle(st, o_history, dict(hist=gen_history(rng, 4), wisdom=w))
-    return finish(st, "histories (length 4..12) over {solve of 6 request shapes (sizes, footprint/dispersion, analytic, single/double) and their one-argument variations (levels, level count, meas_pt, background, source, modes, halo, domain, profiles), set threads 1..8, "
+    return finish(st, "one-thread solves before and after a T-thread solve (T = 2..8) on production-size padded grids (36 x 36, 143 x 143, 77 x 62); histories (length 4..12) over {solve of 8 small request shapes (sizes, footprint/dispersion, analytic, single/double) and their one-argument variations (levels, level count, meas_pt, background, source, modes, halo, domain, profiles), set threads 1..8, "
                   "reset_fft_manager, module-level fft2, worker reset}, each in a fresh subprocess with its own cwd (FFTW wisdom absent or corrupt); "
                   "correspondence: (config.NUM_THREADS, manager threads, pyfftw threads, compiled variants) after every operation vs the Lean state machine; "
                   "oracle: repeats with the same thread setting bit-identical (SHA-256), every solve within 1e-12 (double) of the same solve in a fresh "
